@@ -6,7 +6,7 @@
 (2) Override / accumulate: file + command line with different values -> the command line wins (append options: CLI list or
     file list + CLI list); repeated options accumulate in order within a source.
 (3) Unknown keys (incl. case variants of real keys, keys with dashes/underscores swapped) -> a warning, no abort, nothing applied.
-(4) Quoting: every string up to N symbols over a 12-symbol quoting alphabet written single-, double-, triple-quoted (one line
+(4) Quoting: every string up to N symbols over a 13-symbol quoting alphabet written single-, double-, triple-quoted (one line
     and, when the format allows, physically multi-line) in INI and as TOML basic / literal strings reads back as the same text.
 """
 from __future__ import annotations
@@ -24,7 +24,7 @@ from mc import core, pd
 ID = 'C20'
 LEVEL = 'exploration'
 RULE = ('option actions x value alphabet x 3 file formats (+ override, accumulation, unknown keys) through Options.from_args in a scratch cwd; all strings <= N over '
-        'a 12-symbol quoting alphabet x quoting forms through the real IniConfigParser / TomlConfigParser; a case is non-trivial when the value differs from '
+        'a 13-symbol quoting alphabet x quoting forms through the real IniConfigParser / TomlConfigParser; a case is non-trivial when the value differs from '
         'the option default (options) or the string contains a quote, backslash, comment or list character (quoting); distinct = distinct (option, value, format) / (string, form)')
 ASSUMPTIONS = [
     'quoted INI values are written as single-line Python literals; physical multi-line triple-quoted values only where configparser itself preserves the text (no blank at a line edge, no line starting with a comment prefix)',
@@ -36,8 +36,8 @@ SPACE = {'quick': 'all option actions x value alphabet x 3 formats; override/acc
          'thorough': 'strings <= 4 x 10 quoting forms'}
 JOB_TIMEOUT = 2300
 
-A = ['a', ' ', "'", '"', '\\', '#', ';', '%', '[', ']', ',', '\n']
-BASE_VALUES = ['simple', 'with space', 'a=b', 'a:b', 'x#y', 'x;y', "it's", 'say "hi"', 'ünï', '[x]', 'a,b', '100%', '  lead', 'trail  ', '', '"quoted"', "'q'", 'back\\slash', '$HOME', '{x}']
+A = ['a', ' ', "'", '"', '\\', '#', ';', '%', '[', ']', ',', '\n', '\u00e9']
+BASE_VALUES = ['simple', 'with space', 'a=b', 'a:b', 'x#y', 'x;y', "it's", 'say "hi"', 'ünï', '[x]', 'a,b', '100%', '  lead', 'trail  ', '', '"quoted"', "'q'", 'back\\slash', '$HOME', '{x}', ' Caf\u00e9 \u2603 ', 'na\u00efve']
 SPECIAL = {
     'privacy': [[], ['HIDDEN:a.*'], ['PUBLIC:a', 'private:b.**', 'HIDDEN:c']], 'systemclass': ['pydoctor.model.System', 'nope', 'pydoctor.nope.X'],
     'htmlwriter': ['pydoctor.templatewriter.TemplateWriter', 'x.y'], 'intersphinx_cache_max_age': ['1d', '2w', 'x'], 'buildtime': ['2020-01-01 00:00:00', 'bad'],
@@ -100,13 +100,16 @@ def ini_text(parser: Any, a: Any, v: Any, section: str) -> str:
     return f'[{section}]\n{k} = {val}\n'
 
 
-def load(fname: Optional[str], text: str, argv: Sequence[str]) -> Tuple[Any, List[str]]:
+def load(fname: Any, text: str, argv: Sequence[str]) -> Tuple[Any, List[str]]:
     import attr
     from pydoctor.options import Options
     pd.reset_globals()
     with pd.scratch('c20') as d:
         os.chdir(d)
-        if fname:
+        if isinstance(fname, dict):
+            for fn_, tx_ in fname.items():
+                (d / fn_).write_text(tx_, encoding='utf-8')
+        elif fname:
             (d / fname).write_text(text, encoding='utf-8')
         err = io.StringIO()
         with warnings.catch_warnings(record=True) as w:
@@ -394,6 +397,56 @@ def judge_quoting(prefix: Tuple[str, ...], n: int, res: Dict[str, Any]) -> None:
         res['samples'].append({'quoting_prefix': ''.join(prefix), 'max_len': n, 'forms': ['sq', 'dq', 'tsq', 'tdq', 'tsq-ml', 'tdq-ml', 'toml-basic', 'toml-literal']})
 
 
+# ---------------------------------------------------------------- histories of config reads in one process, files side by side
+# op: (files present in the directory, the command line that says the same)
+TOML_RICH = ('[tool.pydoctor]\nproject-name = "Proj" # the name\nprivacy = [\n  "HIDDEN:a.*", # hide these\n  \'PUBLIC:a.b\',\n]\n'
+             "html-viewsource-base = 'C:\\cache\\new'\nproject-url = 'lit # not a comment'\n")
+TOML_RICH_CLI = ['--project-name=Proj', '--privacy=HIDDEN:a.*', '--privacy=PUBLIC:a.b', '--html-viewsource-base=C:\\cache\\new', '--project-url=lit # not a comment']
+HOPS: Dict[str, Tuple[Dict[str, str], List[str]]] = {
+    'toml-rich': ({'pyproject.toml': TOML_RICH}, TOML_RICH_CLI),
+    'setupcfg': ({'setup.cfg': '[tool:pydoctor]\nproject-name = "Caf\u00e9 API"\ndocformat = restructuredtext\n'}, ['--project-name=Caf\u00e9 API', '--docformat=restructuredtext']),
+    'ini': ({'pydoctor.ini': '[pydoctor]\nproject-name = Ini Name\nprivacy =\n    HIDDEN:x\n    PUBLIC:y\n'}, ['--project-name=Ini Name', '--privacy=HIDDEN:x', '--privacy=PUBLIC:y']),
+    'toml+foreign-setupcfg': ({'pyproject.toml': TOML_RICH, 'setup.cfg': '[metadata]\nname = other\n\n[flake8]\nmax-line-length = 100\n'}, TOML_RICH_CLI),
+    'toml+setupcfg-disjoint': ({'pyproject.toml': TOML_RICH, 'setup.cfg': '[tool:pydoctor]\ndocformat = google\n'}, TOML_RICH_CLI + ['--docformat=google']),
+    'toml+ini-disjoint': ({'pyproject.toml': '[tool.pydoctor]\ndocformat = "numpy" # fmt\n', 'pydoctor.ini': '[pydoctor]\nproject-name = Side\n'}, ['--docformat=numpy', '--project-name=Side']),
+    'toml-foreign-only': ({'pyproject.toml': '[tool.black]\nline-length = 100\n\n[project]\nname = "x" # c\n', 'setup.cfg': '[metadata]\nname = x\n'}, []),
+}
+
+
+def judge_history(hist: Sequence[str], res: Dict[str, Any]) -> None:
+    """The reads of `hist` happen one after the other in this process; each must mean what its command line means."""
+    res['evals'] += 1
+    res['traces'] += 1
+    res['nontrivial'].add(core.h('history', tuple(hist)))
+    for i, op in enumerate(hist):
+        files, argv = HOPS[op]
+        got, warns = load(files, '', [])
+        want, _ = load(None, '', argv)
+        res['outcomes'].add(('history', op, got == want))
+        if got != want:
+            d = {k: (want[k], got[k]) for k in want if want[k] != got.get(k)} if isinstance(got, dict) and isinstance(want, dict) else (want if not isinstance(want, dict) else 'ok', got if not isinstance(got, dict) else 'ok')
+            earlier = [h for h in hist[:i]]
+            alone, _ = load(files, '', [])
+            # attribute to the history only when the same read alone (fresh state is not reachable in-process: shortest history) behaves
+            sig = f'config-read-differs/{op}' + (f'/after:{"+".join(earlier)}' if earlier and judge_alone(op) else '')
+            res['violations'].append(core.violation(sig, f'history {list(hist)}: read #{i + 1} ({op}) gives {d} vs the command line {argv}', {'kind': 'history', 'hist': list(hist)}))
+            return
+
+
+_alone: Dict[str, bool] = {}
+
+
+def judge_alone(op: str) -> bool:
+    """does this read agree with its command line in a fresh interpreter?"""
+    if op not in _alone:
+        import subprocess, sys, json
+        code = ('import json,sys\nfrom mc.props import c20\nfiles, argv = c20.HOPS[sys.argv[1]]\n'
+                'print(json.dumps(c20.load(files, "", [])[0] == c20.load(None, "", argv)[0]))')
+        r = subprocess.run([sys.executable, '-c', code, op], capture_output=True, text=True, env=os.environ)
+        _alone[op] = r.stdout.strip().endswith('true')
+    return _alone[op]
+
+
 def jobs(tier: str) -> Iterable[Tuple[str, Any]]:
     parser = get_parser()
     dests = [a.dest for a in parser._actions if a.option_strings and a.dest not in ('help', 'version', 'config')]
@@ -403,6 +456,8 @@ def jobs(tier: str) -> Iterable[Tuple[str, Any]]:
         yield ('override-accumulate', ('override', d))
     for fmt in FORMATS:
         yield ('unknown-keys', ('unknown', fmt))
+    for first in HOPS:
+        yield ('read-histories', ('history', first))
     n = 3 if tier == 'quick' else 4
     yield (f'quoting<={n}', ('quote', (), 1))
     for c in A:
@@ -424,6 +479,11 @@ def run_job(job: Any, tier: str) -> Dict[str, Any]:
         judge_override(job[1], res)
     elif job[0] == 'unknown':
         judge_unknown(job[1], res)
+    elif job[0] == 'history':
+        depth = 3 if tier == 'quick' else 4
+        for L in range(1, depth + 1):
+            for rest in itertools.product(list(HOPS), repeat=L - 1):
+                judge_history([job[1], *rest], res)
     else:
         _, prefix, n = job
         if prefix == ():
@@ -445,6 +505,8 @@ def replay(case: Dict[str, Any]) -> List[Dict[str, Any]]:
     elif case['kind'] == 'unknown':
         judge_unknown(case['fmt'], res)
         res['violations'] = [v for v in res['violations'] if v['case'].get('key') == case['key']]
+    elif case['kind'] == 'history':
+        judge_history(case['hist'], res)
     else:
         s = case['s']
         judge_quoting(tuple(s), len(s), res)
